@@ -187,7 +187,7 @@ func readOpen(r io.Reader) (*openResult, error) {
 	if hdr.Type != 1 {
 		return nil, fmt.Errorf("message type is not OPEN, got %d, want 1", hdr.Type)
 	}
-	if hdr.Len < 37 {
+	if hdr.Len < 29 {
 		return nil, fmt.Errorf("message length %d too small to be OPEN", hdr.Len)
 	}
 
